@@ -18,8 +18,13 @@ pub fn decorate(doc: &mut Doc, choices: &[u8]) -> usize {
         let c = choices[i % choices.len()];
         i += 1;
         if c % 4 == 0 {
-            a.id = Some(format!("i{}", ids));
-            ids += 1;
+            if ids > 0 && (c / 64) % 4 == 0 {
+                // ids are not always unique in real documents: repeat an earlier one
+                a.id = Some(format!("i{}", (c as usize / 16) % ids));
+            } else {
+                a.id = Some(format!("i{}", ids));
+                ids += 1;
+            }
         }
         a.class.clear();
         match (c / 4) % 5 {
